@@ -20,6 +20,15 @@ import z3
 RLIMIT = 15_000_000  # z3 resource limit per query (deterministic, load independent)
 
 
+# constants that denote distinct literal values (e.g. the Part constants of distinct strings): the engine asserts
+# pairwise distinctness on every path as soon as they exist
+DISTINCT_CONSTS = {}
+
+
+def register_distinct(group, key, const):
+    DISTINCT_CONSTS.setdefault(group, {})[key] = const
+
+
 class EngineAbort(BaseException):
     """Base of engine-level control exceptions (never caught by interpreted try blocks)."""
 
@@ -167,6 +176,7 @@ class Engine:
             self.path_log = []
             self.forced_choices = {k: list(v) for k, v in self.forced_template.items()}
             self.solver = z3.Solver()
+            self._distinct_done = {}
             self.solver.set("rlimit", self.rlimit)
             self.paths += 1
             try:
@@ -174,6 +184,16 @@ class Engine:
             except PathInfeasible:
                 self.paths -= 1
         return self
+
+    def _sync_distinct(self):
+        """Assert distinctness of registered literal constants at the solver's base level (never inside push)."""
+        for group, d in DISTINCT_CONSTS.items():
+            n = len(d)
+            if n > 1 and self._distinct_done.get(group, 0) != n:
+                f = z3.Distinct(*d.values())
+                self.solver.add(f)
+                self.pc.append(f)
+                self._distinct_done[group] = n
 
     def _check(self, *assumptions):
         t0 = time.time()
@@ -208,6 +228,7 @@ class Engine:
         if z3.is_false(cond):
             return False
         k = len(self.decisions)
+        self._sync_distinct()
         if time.time() - self.t_start > self.wall_budget:
             raise OutOfReach(f"{self.name}: wall-clock budget of {self.wall_budget:.0f}s exhausted")
         if k < len(self.prefix):
@@ -317,6 +338,7 @@ class Engine:
         neg = z3.Not(goal)
         insts = self._instantiate([neg])
         s = self.solver
+        self._sync_distinct()
         s.push()
         try:
             for f in insts:
@@ -363,6 +385,7 @@ class Engine:
             return
         insts = self._instantiate([])
         s = self.solver
+        self._sync_distinct()
         s.push()
         for f in insts:
             s.add(f)
